@@ -11,7 +11,8 @@
   The link to the parser (Proofs/UriLink.lean, on top of the C14 layout theorem): EVERY URI accepted by ParseURI
   (sip:, sips:, tel:; input ≤ 65,535 bytes) satisfies `WF u len(b)` and the length AdjustOffs computes is exactly
   len(b) (`parsed_wf`, `parsed_len`), hence — without any hypothesis on the URI —
-  * `relocate_parsed`: parse, then AdjustOffs onto ANY span with Len ≥ len(b): accepted, no panic, type and port number
+  * `relocate_parsed`: parse, then AdjustOffs onto ANY span inside the 16-bit addressing range (Offs + Len < 65536)
+    with Len ≥ len(b): accepted, no panic, type and port number
     kept, and in any buffer holding the same text at the new offset every one of the seven relocated fields reads the
     same bytes as before;
   * `refuse_parsed`: ANY span with Len < len(b) is refused, structure unchanged, no panic;
@@ -19,6 +20,11 @@
     at the scheme, the short view is a byte prefix of the long view, Long after Truncate = Short, Long = the whole
     input when no trailing component is present-but-empty.
   History: the tel: case of the link was not provable at first — defect F21 (`tel:a:b@c`), repaired in /repo 8e3585d.
+  Observed outside the addressing range (model = Go; not covered by the theorems, the property speaks of spans that can
+  hold the URI): a span whose end wraps past 65535 makes the Go `end` computation wrap — `AdjustOffs {65528,10}` on
+  `sip:a@b` runs into the explicit panic, `{65530,7}` returns true with Host.Offs wrapped to 0 (the "absent" marker).
+  No theorem says that a relocated URI is again well formed for a SECOND relocation (the relocation oracle relocates
+  twice; seeded change C11d is caught that way).
 -/
 import Sipsp.Model.URI
 import Sipsp.Proofs.UriLink
